@@ -337,6 +337,15 @@ func (e *Engine) invokeMethod(recv IfaceV, m *types.Func, args []any) any {
 	if a, ok := recv.V.(*AeadV); ok {
 		return e.aeadMethod(a, m.Name(), args)
 	}
+	if _, ok := recv.V.(*FileInfoV); ok {
+		switch m.Name() {
+		case "Mode":
+			return int64(0)
+		case "IsDir":
+			return false
+		}
+		panic("FileInfo method " + m.Name())
+	}
 	if hm, ok := recv.V.(*HmacV); ok {
 		return e.hmacMethod(hm, m.Name(), args)
 	}
